@@ -26,6 +26,12 @@ def scenarios(quick):
                             # a standalone AcquirePermit(ctx) waiting behind the executions, cancelled or served
                             out.append(scenario(st, fns, base + [env("BhAcquire", 1, x=7, id="b"), env("BhAcqCancel", 2, x=7), env("BhRelease", 9, id="b")] if False else
                                                 base + [env("BhAcquire", 1, x=7, id="b"), env("BhAcqCancel", 2, x=7)]))
+    for st in ([bh("b", 1), bh("b", 1)], [bh("b", 2), bh("c", 1)], [bh("b", 2, wait=2), retry(1, dly=1), bh("c", 1)]):
+        for starts in ((0, 0, 0), (0, 1, 1)):
+            fns = [[fn(2, "R1", None, True)] * 3] * 3
+            sc = scenario(st, fns, [start(i + 1, at) for i, at in enumerate(starts)])
+            sc["bhmax"] = {d["id"]: d["max"] for d in st if d["k"] == "bh"}
+            out.append(sc)
     return out
 
 
@@ -48,7 +54,7 @@ def run(ctx):
     tmc.model_check(ctx, "bh", model_scenarios(), ["MC_NoStuckThread", "MC_AllReturn", "MC_C06", "MC_Conservation"])
     scs = scenarios(ctx.tier == "quick")
     if ctx.tier == "quick":      # several concurrent executions make validation expensive: every 6th scenario, offset by the seed
-        scs = scs[ctx.seed % 6::6]
+        scs = scs[ctx.seed % 6::6] + scs[-6:]
     p_c07.run_family(ctx, "bh", scs, props=("C06",))
     return vlib.finish(ctx, rule="6 placements of a bulkhead (alone, under retry, under/over timeout, under fallback, under hedge) x maxConcurrency 1-2 x max wait 0/3 x 3 executions (sync and async) with "
                        "staggered starts and durations x outcome x context cancellation of a waiting or running execution at several instants x standalone TryAcquirePermit/ReleasePermit; traces validated by TLC, "
